@@ -402,11 +402,19 @@ def ref_accepted(t, S, L, length, maxlen, start=None, end=None):
     return out
 
 
-def c06_accepted(t, length, maxlen, with_words, mode, state, S=2, L=2):
+def c06_accepted(t, length, maxlen, with_words, mode, state, S=2, L=2, renamed=False):
     """mode 0: default start; 1: start_state=state; 2: end_state=state"""
     import numpy as np
     fsa = _fsa()
-    A = fsa.FSA(table_to_graph(t, S, L), start_vertices=[0])
+    if renamed:
+        # multi-step construction: build with the first two labels swapped, then relabel in place back to the intended automaton
+        sw = {l: l for l in LABELS}
+        sw['a'], sw['b'] = 'b', 'a'
+        g = {v: {sw[l]: w for l, w in nb.items()} for v, nb in table_to_graph(t, S, L).items()}
+        A = fsa.FSA(g, start_vertices=[0])
+        A.rename_generators(sw, inplace=True)
+    else:
+        A = fsa.FSA(table_to_graph(t, S, L), start_vertices=[0])
     rep = _rep(L)
     kw = {}
     if mode == 1:
